@@ -71,8 +71,26 @@ func runStack(t *rapid.T, col *ev.Collector, prop string, specs []mwSpec, stack 
 			for j := 0; j < k; j++ {
 				msgs = append(msgs, drawServerMsg(t, fmt.Sprintf("m%d.s%d.", i, j), authors))
 			}
-			desc.Messages = append(desc.Messages, map[string]any{"server": briefServers(msgs)})
+			// now and then the handler emits its "nothing to say" value: it is dropped on the
+			// way and everything else goes on as before
+			expect := msgs
+			if rapid.IntRange(0, 9).Draw(t, fmt.Sprintf("m%d.nil", i)) == 0 {
+				pos := rapid.IntRange(0, len(msgs)).Draw(t, fmt.Sprintf("m%d.nilpos", i))
+				withNil := append(append(append([]mocrelay.ServerMsg{}, msgs[:pos]...), nil), msgs[pos:]...)
+				desc.Messages = append(desc.Messages, map[string]any{"server_nil_at": pos})
+				msgs = withNil
+			}
+			desc.Messages = append(desc.Messages, map[string]any{"server": briefServers(expect)})
 			got, err := s.Emit(msgs...)
+			msgs = expect
+			// (an identity chain hands the nil on as it is; the relay's writer drops it)
+			nn := got[:0:0]
+			for _, g := range got {
+				if g != nil {
+					nn = append(nn, g)
+				}
+			}
+			got = nn
 			if err != nil {
 				hx.Fail(t, ev.Failure{Property: prop, Signature: "server-msg-stalled", Clause: "server messages pass the stack", Case: desc, Observed: err.Error()})
 			}
